@@ -285,7 +285,21 @@ class Interp:
     def byte_at(self, b, i):
         """b[i] as an int for SBytes with concrete index"""
         pos = 0
-        for s in b.segs:
+        segs = list(b.segs)
+        for _ in range(8):
+            changed = False
+            for j, s in enumerate(segs):
+                if isinstance(s, Enc) and not (s.codec[0] in ("be", "le") and s.codec[1] == 1):
+                    from spec import kafka
+                    try:
+                        segs[j:j + 1] = list(normalise(kafka.unfold(self.ctx, s)))
+                        changed = True
+                        break
+                    except Undecided:
+                        pass
+            if not changed:
+                break
+        for s in segs:
             ln = s.length()
             if not isinstance(ln, int):
                 if isinstance(s, Raw) and pos == i and self.ctx.entails(ln >= 1):
@@ -302,6 +316,9 @@ class Interp:
                     return s.b[i - pos]
                 if isinstance(s, Byte):
                     return lower(s.t)
+                if isinstance(s, Enc) and s.codec[0] in ("be", "le") and s.codec[1] == 1:
+                    v = zint(s.args[0])
+                    return lower(z3.If(v < 0, v + 256, v)) if s.codec[2] else lower(v)
                 if isinstance(s, Raw):
                     t = byteat(s.t, i - pos)
                     self.ctx.assume(z3.And(t >= 0, t <= 255))
@@ -921,7 +938,7 @@ class Interp:
                 return (not r) if isinstance(r, bool) else SBool(z3.Not(tobool(r)))
             return r if isinstance(r, bool) else SBool(tobool(r))
         if isinstance(op, (ast.Eq, ast.NotEq)):
-            r = sym_eq(a, b)
+            r = sym_eq(a, b, self.ctx)
             if isinstance(op, ast.NotEq):
                 return (not r) if isinstance(r, bool) else SBool(z3.Not(tobool(r)))
             return r if isinstance(r, bool) else SBool(tobool(r))
